@@ -526,9 +526,51 @@ pub fn property() -> Property {
         rule: "random part: initial tree of 0..6 files + 0..3 dat files (plus the sqpack/<exp> directories in-place commands need); 1..3 patches applied in sequence, each = TargetInfo (platform in 5 as BE u16, region -1|1) then 0..12 chunks from FHDR v2/v3, APLY, ADIR, DELD, SQPK T/X/I/A/D/E/H/F(AddFile, DeleteFile, RemoveAll, MakeDirTree) over small id/path pools so that commands overlap, then EOF_; AddFile with 0..5 blocks each raw or deflated (stored/fixed/dynamic). exhaustive part: all sequences of length <= 2 (157; thorough <= 3: 1885) over a concrete 12-chunk alphabet. Oracle: in-memory file-system model of the reference semantics; after apply returns Ok the real tree is walked: regular files must match exactly (paths and bytes), directories as required <= actual <= allowed. Non-trivial: >= 2 effectful chunks touching one file, or a multi-block AddFile with a deflated block, or a chain of >= 2 patches; distinct by hash of the case.",
         assumptions: &["well-formed domain only: DeleteData after a RemoveAll of the same expansion is emitted as ExpandData; no file/directory name clashes; AddFile size = sum of blocks; block counts >= 1", "ADIR/DELD effects, the MakeDirTree leaf and the directory left behind by RemoveAll are not asserted (Physis documents them as no-ops; statement constrains files)", "no files under movie/<exp> or *.var files are generated (the reference's RemoveAll filter)"],
         pre: None,
+        post: None,
         parts: vec![
             Box::new(Part { name: "short-sequences", driver: Driver::Enum(sequences), prop, exhaustive: true }),
             Box::new(Part { name: "random-chains", driver: Driver::Gen(strategy, 1_500, 20_000), prop, exhaustive: false }),
         ],
     }
+}
+
+/// Valid single patches for the robustness checks (C17): patch bytes, initial tree, offset of the EOF_ chunk.
+pub fn seed_patches(ctx: &Ctx, n: usize) -> Vec<(String, Vec<u8>, Vec<(String, Vec<u8>)>, usize)> {
+    let strat = strategy(ctx);
+    let mut out = Vec::new();
+    let mut k = 0u64;
+    while out.len() < n && k < 200 {
+        let c = draw_fixed(&strat, 0xC03_5EED + k);
+        k += 1;
+        let mut it = Interp { fs: Fs::default(), platform: 0, dir_unknown: BTreeSet::new(), touched: BTreeMap::new(), classes: vec![], multi_block_deflated: false };
+        for (p, len, seed) in &c.initial {
+            it.fs.files.insert(p.path(), content(*seed, 0, *len as usize, 0));
+        }
+        for (t, platform, len, seed) in &c.initial_dats {
+            let (main, sub, file) = t.ids();
+            it.fs.files.insert(dat_path(*platform as usize % 5, main, sub, file), content(*seed, 0, *len as usize, 0));
+        }
+        let initial: Vec<(String, Vec<u8>)> = it.fs.files.iter().map(|(k, v)| (k.clone(), v.clone())).collect();
+        let (platform, korea, chunks) = &c.patches[0];
+        // seeds should be small enough for exhaustive sweeps but contain several command kinds
+        if chunks.len() < 3 {
+            continue;
+        }
+        let mut bytes = zp::file_header();
+        bytes.extend_from_slice(&it.step(&Chunk::Target { platform: *platform, korea: *korea }));
+        for ch in chunks {
+            bytes.extend_from_slice(&it.step(ch));
+        }
+        let eof_at = bytes.len();
+        bytes.extend_from_slice(&zp::eof());
+        if bytes.len() > 6000 {
+            continue;
+        }
+        out.push((format!("gen{}", out.len()), bytes, initial, eof_at));
+    }
+    out
+}
+
+pub fn seed_exps() -> Vec<String> {
+    EXPS.iter().map(|e| exp_folder(*e)).collect()
 }
